@@ -179,6 +179,9 @@ UNITS["C16"] = [
 ]
 
 UNITS["C05"] = [
+    dict(kind="structural", name="c05_row_bindings", check="row_bindings", file="crates/klukai-types/src/change.rs", fn="row_to_change",
+         files=["crates/klukai-agent/src/api/peer/mod.rs", "crates/klukai-types/src/broadcast.rs", "crates/klukai-agent/src/agent/util.rs"],
+         trusted=["rusqlite returns columns in SELECT order; syntactic reading of the SELECT lists (vx/structural.py row_bindings)"]),
     dict(kind="structural", name="c05_flags", check="exists_binding", file="crates/klukai-agent/src/api/peer/mod.rs", fn="handle_need",
          trusted=["rusqlite binds named parameters by name and returns columns in SELECT order"]),
     dict(kind="structural", name="c05_chunker_ranges", check="chunker_ranges", file="crates/klukai-agent/src/api/peer/mod.rs", fn="handle_need",
@@ -201,6 +204,9 @@ UNITS["C05"] = [
 ]
 
 UNITS["C03"] = [
+    dict(kind="structural", name="c03_row_bindings", check="row_bindings", file="crates/klukai-types/src/change.rs", fn="row_to_change",
+         files=["crates/klukai-agent/src/api/peer/mod.rs", "crates/klukai-types/src/broadcast.rs", "crates/klukai-agent/src/agent/util.rs"],
+         trusted=["rusqlite returns columns in SELECT order; syntactic reading of the SELECT lists (vx/structural.py row_bindings)"]),
     dict(kind="structural", name="c03_seqmerge_params", check="seqmerge_params", file="crates/klukai-agent/src/agent/util.rs", fn="process_incomplete_version",
          trusted=["rusqlite named_params! binds by name"]),
     dict(kind="verus", name="c03_ingest", template="specs/c10_ingest.vrs",
@@ -290,6 +296,9 @@ UNITS["C09"] = [
 ]
 
 UNITS["C07"] = [
+    dict(kind="structural", name="c07_row_bindings", check="row_bindings", file="crates/klukai-types/src/change.rs", fn="row_to_change",
+         files=["crates/klukai-agent/src/api/peer/mod.rs", "crates/klukai-types/src/broadcast.rs", "crates/klukai-agent/src/agent/util.rs"],
+         trusted=["rusqlite returns columns in SELECT order; syntactic reading of the SELECT lists (vx/structural.py row_bindings)"]),
     dict(kind="structural", name="c07_chunker_ranges", check="chunker_ranges", file="crates/klukai-types/src/broadcast.rs", fn="broadcast_changes", min_sites=1,
          trusted=["syntactic comparison (vx/structural.py chunker_ranges): the local broadcast announces seq 0 ..= last_seq over all rows of the version, selected in ascending seq order"]),
     dict(kind="structural", name="c07_sql_scoping", check="sql_actor_scoping", file="crates/klukai-types/src/change.rs",
